@@ -247,10 +247,10 @@ func runC09(c *Ctx) {
 	} else {
 		c.Deadline = c.Start.Add(60 * time.Minute)
 	}
-	// the last two histories: an entry that a search text with a regexp metacharacter must NOT match
+	// the last three histories: (8) entries sharing only the first byte of a multi-byte search text; an entry that a search text with a regexp metacharacter must NOT match
 	// ("a." is a literal substring of "a.c" only), and a multi-line entry that is the newest match of q
-	hists := [][]string{{}, {"x"}, {"x", "x"}, {"ab", "a", "abc"}, {"a b", "l1\nl2", "a"}, {"p", "pq", "pqr", "q"}, {"a.c", "cat abc"}, {"x", "q1\nq2"}}
-	ws := []string{"", "a", "p", "zz", "a."}
+	hists := [][]string{{}, {"x"}, {"x", "x"}, {"ab", "a", "abc"}, {"a b", "l1\nl2", "a"}, {"p", "pq", "pqr", "q"}, {"a.c", "cat abc"}, {"x", "q1\nq2"}, {"éc", "èb", "zz"}}
+	ws := []string{"", "a", "p", "zz", "a.", "éa"}
 	kinds := []string{"default", "mem", "file"}
 	c.Rule = "explicit-state BFS per (history H, source kind, in-progress text W, cursor at end / after the first character) over navigation and search commands by name (previous/next/beginning/end-of-history, up/down-line-or-history, *-buffer-or-history, history-search-*, history-substring-search-*, up-line-or-search, incremental search sessions with pattern runes a p q + Backspace + Enter/ESC/C-g, vi k j n N, fetch-history); exact list/index reference model on navigation-only paths, membership in the documented match set for searches, no 'history error' hint, sources unchanged. non-trivial = distinct states reached"
 	c.Bounds = map[string]any{"histories": hists, "in_progress": ws, "source_kinds": kinds}
@@ -294,7 +294,7 @@ func runC09(c *Ctx) {
 						if cur == "first" && len(W) < 2 {
 							continue
 						}
-						if (hi == 6 && wi != 0 && wi != 4) || (hi == 7 && wi != 0) || (wi == 4 && hi != 6) {
+						if (hi == 6 && wi != 0 && wi != 4) || (hi == 7 && wi != 0) || (wi == 4 && hi != 6) || (hi == 8 && wi != 5) || (wi == 5 && hi != 8) {
 							continue // the two special histories are paired with their own in-progress texts only
 						}
 						depth := 2
@@ -326,6 +326,11 @@ func runC09(c *Ctx) {
 							}
 						}
 						cfg := harness.Config{RC: rc, W: 60, H: 16, Prompt: "$ ", Hist: []harness.HistSpec{{Kind: kind, Name: "src0", Lines: H}}}
+						if hi == 8 {
+							// multi-byte text before point (typed as itself under the usual UTF-8 settings): the
+							// entry èb shares the first BYTE, not the first character, with the search text é
+							cfg.RC = "set convert-meta off\nset input-meta on\nset output-meta on\n" + rc
+						}
 						m := c09Model{H: H, W: W, Wp: W}
 						if cur == "first" {
 							m.Wp = runePrefix(W, 1)
